@@ -8,7 +8,9 @@ use rand_chacha::ChaCha8Rng;
 
 use super::{
     attack::AttackSpec,
-    ffield::{encode_fe, log2_base, modulus, nb_limbs, Emu, FIn, FProg, Ins, MEP, R},
+    ffield::{big_of_f, decode_fe, encode_fe, f_of_big, log2_base, modulus, nb_limbs, Emu, FIn, FProg, Ins, MEP, R},
+    lattice::short_kernel_vectors,
+    repair::IdentityRow,
 };
 
 pub fn b(n: u64) -> BigUint {
@@ -840,6 +842,106 @@ where
             forged: Some(f),
             donors: vec![],
         });
+    }
+    out
+}
+
+/// "Free auxiliary value" forgeries: for each auxiliary cell of the identity row in turn, assume it
+/// is not range-checked, eliminate it, and look (LLL) for small limb changes that keep the other
+/// auxiliary values within a small change. On a sound circuit every such forgery must die on the
+/// range check of the assumed-free cell.
+pub fn lattice_specs<K: Emu>(e: &FEntry<K>, input: &FIn, info: &IdentityRow, max_per_aux: usize) -> Vec<AttackSpec<FIn>>
+where
+    MEP: FieldEmulationParams<F, K>,
+{
+    use num_bigint::{BigInt, ToBigInt};
+    use num_traits::Signed;
+    let Some(w) = e.wrap else { return vec![] };
+    let m = modulus::<K>();
+    let (a, c) = (&input.fe[0] % &m, &input.fe[1] % &m);
+    let inv = |x: &BigUint| x.modpow(&(&m - b(2)), &m);
+    let z = match w {
+        Wrap::Mul => (&a * &c) % &m,
+        Wrap::Add => (&a + &c) % &m,
+        Wrap::Div => {
+            if c.is_zero() {
+                return vec![];
+            }
+            (&a * inv(&c)) % &m
+        }
+    };
+    let honest = encode_fe::<K>(&z);
+    let n = nb_limbs::<K>();
+    let lb = log2_base::<K>();
+    let msl = m.bits() as u32 - (n as u32 - 1) * lb;
+    let limb_bits: Vec<u32> = (0..n).map(|i| if i == n - 1 { msl } else { lb }).collect();
+    let q: BigInt = (big_of_f(&-F::from(1u64)) + BigUint::one()).to_bigint().unwrap();
+    let fi = |f: &F| big_of_f(f).to_bigint().unwrap();
+    let r = info.aux.len();
+    let mut out = vec![];
+    for free in 0..r {
+        // eliminate aux `free` with the first polynomial that depends on it
+        let Some(p0) = (0..r).find(|p| info.da[*p][free] != F::from(0u64)) else { continue };
+        let inv_p0 = Option::<F>::from(ff::Field::invert(&info.da[p0][free])).unwrap();
+        // unknowns: limbs 0..n, then the other aux cells
+        let others: Vec<usize> = (0..r).filter(|j| *j != free).collect();
+        let mut eqs: Vec<Vec<BigInt>> = vec![];
+        for p in 0..r {
+            if p == p0 {
+                continue;
+            }
+            let factor = info.da[p][free] * inv_p0;
+            let mut row: Vec<BigInt> = vec![];
+            for i in 0..n {
+                row.push(fi(&(info.dz[p][i] - factor * info.dz[p0][i])));
+            }
+            for j in &others {
+                row.push(fi(&(info.da[p][*j] - factor * info.da[p0][*j])));
+            }
+            eqs.push(row);
+        }
+        let mut bits: Vec<u32> = limb_bits.iter().map(|b| b.saturating_sub(1).max(1)).collect();
+        for j in &others {
+            bits.push((big_of_f(&info.aux_values[*j]).bits() as u32).saturating_sub(2).max(16));
+        }
+        let vecs = short_kernel_vectors(&eqs, &q, &bits);
+        if std::env::var("MZV_LATTICE_DEBUG").is_ok() {
+            eprintln!("[lattice] free aux {free} (cell {:?}), aux bits {:?}, allowed bits {:?}", info.aux[free], info.aux_values.iter().map(|v| big_of_f(v).bits()).collect::<Vec<_>>(), bits);
+            for v in vecs.iter().take(4) {
+                eprintln!("[lattice]   vector bits {:?}", v.iter().map(|x| x.bits() as i64 * if x.is_negative() { -1 } else { 1 }).collect::<Vec<_>>());
+            }
+        }
+        let mut made = 0;
+        for v in vecs.iter().take(6) {
+            for sign in [1i32, -1] {
+                if made >= max_per_aux {
+                    break;
+                }
+                let mut forged = vec![];
+                let mut ok = true;
+                for i in 0..n {
+                    let zi = big_of_f(&honest[i]).to_bigint().unwrap() + &v[i] * BigInt::from(sign);
+                    if zi.is_negative() || zi.bits() as u32 > limb_bits[i] {
+                        ok = false;
+                        break;
+                    }
+                    forged.push(f_of_big(&zi.to_biguint().unwrap()));
+                }
+                if !ok {
+                    continue;
+                }
+                let (res, wf) = decode_fe::<K>(&forged);
+                if !wf || res == z {
+                    continue;
+                }
+                made += 1;
+                out.push(AttackSpec {
+                    label: format!("free-aux[{free}]"),
+                    forged: Some(forged),
+                    donors: vec![],
+                });
+            }
+        }
     }
     out
 }
